@@ -16,6 +16,54 @@ pub const IRQ_NAMES: [&str; 11] = [
   "C07: IE unchanged except by the push itself",
   "C07: five machine cycles are charged",
   "C07: AF, BC, DE, HL unchanged" ];
+
+/// C15 reference for the object half of a scan line, written from the property statement: at most ten objects per line chosen
+/// in OAM order, x/y flips, 8x16 objects (bit 0 of the tile index ignored), lowest-X-then-lowest-OAM-index priority,
+/// colour 0 transparent.  Result per cache index p (screen x = p - 8): 0x80 | BG-over-OBJ clear -> 0x40 | palette << 2 | colour.
+pub fn ref_object_line(oam: &[u8], vram: &[u8], line: u8, double_height: bool, nobj: usize) -> [u8; 176] {
+  let h: i32 = if double_height { 16 } else { 8 };
+  // selection: the first ten entries (OAM order) whose vertical extent covers the line
+  let mut sx = [0i32; 10]; let mut slo = [0u8; 10]; let mut shi = [0u8; 10]; let mut sattr = [0u8; 10]; let mut nsel = 0;
+  let mut k = 0;
+  while k < nobj {
+    let (y, x, tile, attr) = (oam[4 * k] as i32, oam[4 * k + 1] as i32, oam[4 * k + 2] as usize, oam[4 * k + 3]);
+    let ol = line as i32 + 16 - y;
+    if nsel < 10 && ol >= 0 && ol < h {
+      let row = if attr & 0x40 != 0 { h - 1 - ol } else { ol } as usize;
+      let t = if double_height { tile & 0xfe } else { tile };
+      let a = t * 16 + row * 2;
+      sx[nsel] = x; slo[nsel] = vram[a]; shi[nsel] = vram[a + 1]; sattr[nsel] = attr;
+      nsel += 1;
+    }
+    k += 1;
+  }
+  let mut out = [0u8; 176];
+  let mut p = 0;
+  while p < 176 {
+    let mut best_x: i32 = 1000; let mut best_val: u8 = 0;
+    let mut i = 0;
+    while i < 10 {
+      if i < nsel {
+        let (x, attr) = (sx[i], sattr[i]);
+        if x < 168 && x <= p as i32 && (p as i32) < x + 8 {
+          let j = (p as i32 - x) as u32;
+          let bit = if attr & 0x20 != 0 { j } else { 7 - j };
+          let colour = (((shi[i] >> bit) & 1) << 1) | ((slo[i] >> bit) & 1);
+          // strict < : among equal X the earlier OAM entry (earlier in selection order) wins
+          if colour != 0 && x < best_x {
+            best_x = x;
+            best_val = 0x80 | (if attr & 0x80 == 0 { 0x40 } else { 0 }) | (((attr & 0x10) >> 4) << 2) | colour;
+          }
+        }
+      }
+      i += 1;
+    }
+    out[p] = best_val;
+    p += 1;
+  }
+  out
+}
+
 /// ime / rs encoding: 0 = Enabled / Run, 1 = Disabled / Stop, 2 = EnableNext / Halt
 pub fn irq_verdicts(i: &IrqIn, o: &IrqOut) -> [bool; 11] {
   let mut v = [true; 11];
@@ -297,5 +345,68 @@ pub mod harnesses {
       assert!(r == Some(crate::debug::command::Command::Continue), "C20: `c` / `C` with surrounding whitespace is Continue");
     }
     kani::cover!(r.is_some(), "reachable: some line parses");
+  }
+
+  // ------------------------------------------------------------------ C15: object line (BOUNDED)
+  // A: NOBJ fully symbolic OAM entries (Y, X, attributes) with concrete, distinct tiles whose 32 data bytes are symbolic; the other
+  //    entries are off-line.  A first composition with objects on precedes the checked one (a stale cache must not show through).
+  const NOBJ: usize = 3;
+  #[kani::proof] #[kani::unwind(180)]
+  #[kani::stub(crate::devices::video::lcd::LCD::new, lcd_stub)]
+  fn leaf_object_line() {
+    let mut v = crate::devices::video::VideoState::new();
+    let dh: bool = kani::any();
+    let line: u8 = kani::any();
+    kani::assume(line < 144);
+    let mut oam_v = vec![0u8; 0xa0];      // Y = 0: never on a visible line
+    let mut vram_v = vec![0u8; 0x2000];
+    let mut t = 0;
+    while t < NOBJ {
+      oam_v[4 * t] = kani::any(); oam_v[4 * t + 1] = kani::any(); oam_v[4 * t + 3] = kani::any();
+      oam_v[4 * t + 2] = (2 * t + 2) as u8;                 // tiles 2, 4, 6 (even: 8x16 uses the pair t, t+1)
+      let base = (2 * t + 2) * 16;
+      let mut r = 0;
+      while r < 32 { vram_v[base + r] = kani::any(); r += 1; }
+      t += 1;
+    }
+    let oam = oam_v.into_boxed_slice(); let vram = vram_v.into_boxed_slice();
+    // history: a line composed with objects enabled
+    v.set_lcd_control(0x82 | if dh { 4 } else { 0 });
+    let _ = v.verif_object_line(line, &vram, &oam);
+    // the checked composition: objects enabled or not
+    let enabled: bool = kani::any();
+    v.set_lcd_control(0x80 | if enabled { 2 } else { 0 } | if dh { 4 } else { 0 });
+    let got = v.verif_object_line(line, &vram, &oam);
+    let want = if enabled { super::ref_object_line(&oam, &vram, line, dh, NOBJ) } else { [0u8; 176] };
+    let p: usize = kani::any();
+    kani::assume(p < 176);
+    assert!(got[p] == want[p], "C15: object line cache equals the reference object composition (selection, flips, 8x16, priority, transparency)");
+    kani::cover!(want[p] != 0, "reachable: some object pixel");
+  }
+  // B: eleven entries that may or may not cover the line (symbolic), symbolic X, one shared opaque tile: the ten-per-line limit
+  #[kani::proof] #[kani::unwind(180)]
+  #[kani::stub(crate::devices::video::lcd::LCD::new, lcd_stub)]
+  fn leaf_object_limit() {
+    let mut v = crate::devices::video::VideoState::new();
+    v.set_lcd_control(0x82);
+    let line: u8 = 40;
+    let mut oam_v = vec![0u8; 0xa0];
+    let mut vram_v = vec![0u8; 0x2000];
+    let mut r = 0;
+    while r < 16 { vram_v[16 + r] = 0xff; r += 1; }          // tile 1: every pixel colour 3
+    let mut t = 0;
+    while t < 11 {
+      let on: bool = kani::any();
+      oam_v[4 * t] = if on { line + 16 } else { 0 };
+      oam_v[4 * t + 1] = kani::any();
+      oam_v[4 * t + 2] = 1;
+      t += 1;
+    }
+    let oam = oam_v.into_boxed_slice(); let vram = vram_v.into_boxed_slice();
+    let got = v.verif_object_line(line, &vram, &oam);
+    let want = super::ref_object_line(&oam, &vram, line, false, 11);
+    let p: usize = kani::any();
+    kani::assume(p < 176);
+    assert!(got[p] == want[p], "C15: at most ten objects per line, chosen in OAM order (hidden ones count)");
   }
 }
